@@ -81,7 +81,9 @@ PredCases == {[k |-> "pred", preds |-> <<<<o1, v1>>>>, cand |-> w] : o1 \in Ops,
         \cup {[k |-> "pred", preds |-> <<<<o1, v1>>, <<o2, v2>>, <<o3, v3>>>>, cand |-> w] :
                 o1 \in {">=", ">"}, o2 \in {"<", "<=", "!="}, o3 \in Ops, v1 \in PV, v2 \in PV, v3 \in {CHOOSE z \in PV : z.rel = <<1, 1>> /\ z.pre[1] = 0}, w \in PV}
 PredRef(x) == \A i \in 1..Len(x.preds) : Holds(x.preds[i][1], x.cand, x.preds[i][2])
-BadPreds == {[k |-> "badpred", text |-> t] : t \in {"", ">=", "1.0", "=> 1.0", ">= 1.0,", ">= 1.0 <2", "~= 1.0", ">= not.a.version", "=1.0", ">= 1.0,,<2"}}
+BadPreds == {[k |-> "badpred", text |-> t] : t \in {"", ">=", "1.0", "=> 1.0", ">= 1.0,", ">= 1.0 <2", "~= 1.0", ">= not.a.version", "=1.0", ">= 1.0,,<2",
+                                                   \* a blank inside the operator or inside the version: not the comparison it resembles
+                                                   "> =1.5.0", ">=1. 5.0", "! =3.1", "< =2", ">=1 .0"}}
 
 Cases == ConvCases \cup OrderCases \cup BadCases \cup CompatCases \cup PredCases \cup BadPreds
 Init == c \in Cases
